@@ -41,7 +41,38 @@ fn is_scalar_in_domain(v: &Value) -> bool {
     }
 }
 
+/// the implicit order of an aggregation at the end of a query or directly before `limit`
+fn check_implicit_sort(ctx: &mut Ctx) {
+    let n = ctx.budget(240, 6000);
+    for _ in 0..n {
+        let mut r = ctx.rng.fork();
+        let nrows = 3 + r.below(25);
+        let input = agg_docs(&mut r, nrows);
+        let ts = r.chance(60);
+        let pre = if ts { format!("* | json | timeslice(parseDate(ts)) {}", r.pick(&["5m", "10m", "1h"])) } else { "* | json".to_string() };
+        let (aggs, cols): (&str, Vec<&str>) = r.pick(&[("count", vec!["_count"]), ("count, sum(n)", vec!["_count", "_sum"]), ("sum(m) as s, count as c", vec!["s", "c"]), ("max(n) as hi", vec!["hi"])]).clone();
+        let keys = if ts { *r.pick(&["_timeslice, k", "k, _timeslice", "_timeslice", "_timeslice, k, n"]) } else { *r.pick(&["k", "k, n", "n"]) };
+        let agg = format!("{} by {}", aggs, keys);
+        let tail = *r.pick(&["", "", " | limit 1", " | limit 3", " | limit -2", " | limit 2 | limit 1"]);
+        let key = ckey(&format!("{} | {}{}", pre, agg, tail), &input);
+        match implicit_sort_equiv(&pre, &agg, &cols, ts, tail, &input) {
+            None => ctx.case("implicit-sort", &key, "pass", serde_json::json!({"query": format!("{} | {}{}", pre, agg, tail)})),
+            Some((q1, q2, o1, o2)) => ctx.case("implicit-sort", &key, "viol", serde_json::json!({"class": "", "what": "an aggregation at the end of the query (or before limit) is not in the documented implicit order: it differs from the same query with that sort written out",
+                "query": q1, "query_with_explicit_sort": q2, "got": o1, "expected": o2, "input": String::from_utf8_lossy(&input)})),
+        }
+        // F-level on the implicit form
+        let q1 = format!("{} | {}{}", pre, agg, tail);
+        let c = run_both(ctx, &q1, &input);
+        match compare(&c, true) {
+            F::Disagree(d) => ctx.case("model", &key, "fdis", serde_json::json!({"what": d, "query": q1, "input": String::from_utf8_lossy(&input)})),
+            F::Agree => ctx.case("model", &key, "pass", serde_json::json!({"query": q1})),
+            F::Skip(w) => ctx.case("model", "", "skip", serde_json::json!({"why": w.split(':').next().unwrap_or("").to_string()})),
+        }
+    }
+}
+
 pub fn check(ctx: &mut Ctx) {
+    check_implicit_sort(ctx);
     // ---- 1. order laws on all triples of the pool (real `Ord for Value`), and model = implementation
     let pool = vals::pool();
     let np = pool.len();
@@ -122,7 +153,9 @@ pub fn check(ctx: &mut Ctx) {
             format!("* | json | sort by {}{}", cols.join(", "), dir)
         };
         let sort_cols: Vec<String> = q.split("sort by ").nth(1).unwrap().trim_end_matches(" asc").trim_end_matches(" desc").split(", ").map(|s| s.trim().to_string()).collect();
-        let rows = r.below(if ctx.thorough() { 200 } else { 30 });
+        // mostly small inputs; one case in eight has a size around the thresholds a sort
+        // implementation may switch algorithms at (20/21, 32, 64, 128 …)
+        let rows = if r.chance(12) { *r.pick(&[19usize, 20, 21, 22, 31, 32, 33, 63, 64, 65, 100, 128, 129, 257, 400]) } else { r.below(if ctx.thorough() { 200 } else { 30 }) };
         let dense = r.chance(40);
         let input = if dense { gen::dense_input(&mut r, rows) } else { gen::json_input(&mut r, rows, &gen::DocCfg { key_domain: 3, numeric_only: false }, 3) };
         let key = ckey(&q, &input);
